@@ -207,7 +207,9 @@ def run_one(ctx, label, img, meta, ops, mnt):
                 if pf.fat_type != 32:
                     used = sum(len(bytes(d)) // 32 for d in pf.root_dir._get_entries_raw())
                     root_free = pf.bpb_header["BPB_RootEntCnt"] - used
-                target_in_root = all(p.count("/") <= 1 for p in op[1:3] if isinstance(p, str) and p.startswith("/"))
+                # the entry that needs a slot is the LAST path operand (the destination of copy / move)
+                paths = [p for p in op[1:3] if isinstance(p, str) and p.startswith("/")]
+                target_in_root = bool(paths) and paths[-1].count("/") <= 1
                 if op[0] == "makedirs":
                     # makedirs creates the missing ancestors too: the first one goes into the (fixed-size) root region
                     first = "/" + op[1].strip("/").split("/")[0]
@@ -218,6 +220,22 @@ def run_one(ctx, label, img, meta, ops, mnt):
                 if free >= need + 2 and not (target_in_root and root_free < 22):
                     ctx.violation(f"{label}: {op[:2]} refused with ENOSPC while {free} clusters are free ({need} needed at most)", "spurious-enospc:" + op[0], dict(rep, at=i))
                 return  # the reference has no capacity limit: stop comparing this program here
+            if op[0] in ("copy", "move") and ires[0] == "err" and rres[0] == "err" and ires[1] != rres[1]:
+                # two faults at once (source not a file / destination exists / destination directory missing): the order in which they are
+                # detected is unspecified; either documented class is accepted (the generator avoids this where it can tell)
+                faults = set()
+                try:
+                    if not ref.isfile(op[1]):
+                        faults.add("FEXP" if ref.exists(op[1]) else "RNF")
+                    if ref.exists(op[2]) and not (len(op) > 3 and op[3]):
+                        faults.add("DESTEX")
+                    if not ref.isdir(op[2].rsplit("/", 1)[0] or "/"):
+                        faults.add("RNF")
+                except Exception:  # noqa
+                    faults = set()
+                if len(faults) >= 2 and ires[1] in faults and rres[1] in faults:
+                    ctx.dist["two-faults"] += 1
+                    continue
             if core.canon(list(ires)) != core.canon(list(rres)):
                 what = f"{label}: op {i} {[str(x)[:60] for x in op[:3]]}: pyfatfs {str(core.canon(list(ires)))[:120]} vs reference {str(core.canon(list(rres)))[:120]}"
                 ctx.violation(what, f"differs:{op[0]}:{ires[1] if ires[0] == 'err' else 'ok'}:{rres[1] if rres[0] == 'err' else 'ok'}", dict(rep, at=i))
